@@ -99,7 +99,7 @@ ADDED = {
  "C06": (" + the same runs repeated through the real executable", " A sample of the runs is repeated through the real executable: its stdout and exit status must be those of jawk::go; text and csv sinks are included."),
  "C07": (" + order axioms on observed comparisons (Trace_Expr kind=axioms)",
          " For universes with several objects the observed answers of <= and < on every ordered pair must form one total preorder that sort and --sort-by follow (stable). SortChain.tla states the two-sorter drain as an inductive invariant (TLC reachability; thorough: Apalache for arbitrary integer keys)."),
- "C08": (" + TopN.tla: the top-N shortcut as an inductive invariant (TLC reachability; thorough: Apalache base case and step for arbitrary integer keys)", ""),
+ "C08": (" + TopN.tla: the top-N shortcut as an inductive invariant (TLC reachability; thorough: Apalache base case and step for arbitrary integer keys) + Limiter.tla: the skip/take counters (TLC; thorough: proved for all S, T and input lengths with the TLA+ proof system, Limiter_proofs.tla)", ""),
  "C12": (" + twin runs: a --set binding in every option position against the written-out options", ""),
  "C13": (" + ExprSyntax.tla reads every generated spelling (Trace_Syntax) + twin runs (bound vs written out) in every option position", ""),
  "C17": (" + directory arguments (rows = rows of the files, any order), file names out of lexicographic order, selectors on derived contexts", ""),
